@@ -1,5 +1,6 @@
 import RadicaleProofs.Quote
 import RadicaleProofs.Sanitize
+import RadicaleProofs.UrlSplit
 /-
   C18 — every name the server hands out or accepts round-trips through URL encoding.
   Property theorems only; helper lemmas live in RadicaleProofs.
@@ -11,7 +12,7 @@ open Radicale Radicale.Quote Radicale.Path
 theorem unquote_quote (s : Str) : unquote (quote s) = s := Quote.unquote_quote s
 
 /-- Everything `quote` emits is an unreserved character, "/", or part of a %XX triplet; in particular no
-    "?", "#" or ";" survives, so `urlparse(...).path` of an emitted href is the href itself. -/
+    "?", "#" or ";" survives, so the path part of an emitted href is the href itself. -/
 theorem quote_is_urlpath (s : Str) :
     ∀ c ∈ quote s, urlPathChar c = true ∧ c ≠ '?' ∧ c ≠ '#' ∧ c ≠ ';' := Quote.quote_chars s
 
@@ -57,6 +58,50 @@ theorem three_decoders_agree (u : Str) (h : '?' ∉ u) :
 theorem destination_undecoded_witness :
     decodeDestination false (makeHref [] "/u/cal/my event.ics".toList) ≠ "/u/cal/my event.ics".toList := by
   decide +kernel
+
+/-! ### from the URL to its path: `urlsplit(...).path` (MOVE `Destination`, multiget `D:href`), model RadicaleModel/UrlSplit.lean -/
+
+section UrlSplit
+open Radicale.UrlSplit
+
+/-- **the URL splitting step keeps the path**: for an absolute `http://` / `https://` URL whose path starts with "/"
+    and has no "?", "#", tab, CR or LF, the path handed to the decoder is the path as written — every other
+    character, ";" included, stays where it is -/
+theorem url_path_kept (host p : Str) (hh : ∀ c ∈ host, isDelim c = false ∧ removed c = false)
+    (hp : p.head? = some '/') (hc : ∀ c ∈ p, c ≠ '?' ∧ c ≠ '#' ∧ removed c = false) :
+    urlsplitPath (httpPrefix ++ (host ++ p)) = p ∧ urlsplitPath (httpsPrefix ++ (host ++ p)) = p :=
+  ⟨urlsplitPath_http host p hh hp hc, urlsplitPath_https host p hh hp hc⟩
+
+/-- **an emitted href, sent back as an absolute URL in `Destination` or in a multiget `D:href`, reaches the resource
+    it was made from** (the full chain: split, unquote, sanitize) -/
+theorem emitted_href_as_url_reaches_resource (host basePrefix path : Str)
+    (hh : ∀ c ∈ host, isDelim c = false ∧ removed c = false) (hp : (basePrefix ++ path).head? = some '/') :
+    decodeDestinationUrl (httpPrefix ++ (host ++ makeHref basePrefix path)) = sanitize (basePrefix ++ path) ∧
+    decodeMultigetUrl (httpPrefix ++ (host ++ makeHref basePrefix path)) = sanitize (basePrefix ++ path) := by
+  have hsplit : urlsplitPath (httpPrefix ++ (host ++ makeHref basePrefix path)) = makeHref basePrefix path := by
+    apply urlsplitPath_http host _ hh
+    · exact quote_head_slash _ hp
+    · intro c hc
+      have := Quote.quote_chars _ c hc
+      exact ⟨this.2.1, this.2.2.1, urlPathChar_not_removed c this.1⟩
+  unfold decodeDestinationUrl decodeMultigetUrl
+  rw [hsplit]
+  exact ⟨destination_decodes_same basePrefix path, multiget_decodes_same basePrefix path⟩
+
+/-- a client need not encode ";" (a sub-delimiter of RFC 3986): the name with the ";" is reached -/
+example : decodeDestinationUrl "http://127.0.0.1/u/cal/a;b.ics".toList = "/u/cal/a;b.ics".toList := by decide +kernel
+
+/-- Finding F28 as a theorem: `urlparse(...).path`, used before the fix, cuts the last segment at its first ";" —
+    the Destination `…/a;b.ics` addressed the resource `a` -/
+theorem f28_urlparse_cuts_the_name :
+    urlparsePath "http://127.0.0.1/u/cal/a;b.ics".toList = "/u/cal/a".toList ∧
+    urlsplitPath "http://127.0.0.1/u/cal/a;b.ics".toList = "/u/cal/a;b.ics".toList := by decide +kernel
+
+-- non-vacuity of the hypotheses: a host with a port, a path with ";" and "+"
+example : (∀ c ∈ "127.0.0.1:5232".toList, isDelim c = false ∧ removed c = false) ∧
+    ("/u/c/a;b+c.ics".toList).head? = some '/' ∧ (∀ c ∈ "/u/c/a;b+c.ics".toList, c ≠ '?' ∧ c ≠ '#' ∧ removed c = false) := by decide
+
+end UrlSplit
 
 /-- sanitised paths are fixed points of `sanitize_path` (used above; also a C06 fact) -/
 theorem sanitize_idempotent (p : Str) : sanitize (sanitize p) = sanitize p := sanitize_idem p
